@@ -333,6 +333,11 @@ def run(rep, db, tier, seed):
     handle('PoolWatch::remove one step', check_pool, 'remove', False)
     handle('PoolWatch::insert with an interfering insert', check_pool, 'insert', True)
     try:
+        from props import c12_pools
+        c12_pools.run(rep, db, tier)
+    except Exception as u:
+        rep.add(Obligation('validator pools', 'inconclusive', f'{type(u).__name__}: {u}'[:600]))
+    try:
         from props import c12_lifecycle
         c12_lifecycle.run(rep, db, tier)
     except Exception as u:
